@@ -402,33 +402,4 @@ theorem rs_maybeClone {r : Id} {d d' : Dom} {o : Id} (hb : DomBase d) (hr : r < 
         exact hrn (cloneTarget_fixed_name ht)
       exact rs_cloneOptionInto hb (isContainer_of_isElement hel) hr hne h
 
-instance (o : Id) : PB (sinkUnit (.maybeCloneAnOptionIntoSelectedcontent o)) :=
-  ⟨fun m r ph s a s' hb e => by
-    obtain ⟨out, e⟩ := sinkUnit_ok.mp e
-    obtain ⟨d, hd, rfl⟩ := sink_ok.mp e
-    have hl := hb.late
-    have hcl := apply_clone hd
-    obtain ⟨hb', hc', hk0⟩ := maybeCloneOption_spec hl.base hcl
-    have hrel : s.dom.isElement r = true := hl.st.oe r hb.root_mem
-    have hrs : RS r s.dom d := by
-      refine rs_maybeClone hl.base (lt_of_isElement hrel) ?_ hcl
-      have hn := hb.root_name
-      unfold nm at hn
-      unfold Dom.localNameOf
-      cases hdr : s.dom.dataOf r with
-      | none => simp
-      | some v =>
-        rw [hdr] at hn
-        cases v with
-        | element n a tc ip =>
-          simp only at hn ⊢
-          intro he
-          have h1 : n.loc = "html".toList := by
-            have := congrArg EName.loc hn
-            exact this
-          rw [h1] at he
-          revert he; decide
-        | _ => simp
-    exact ⟨hb.dom (hl.dom hb' hc' hk0).1 rfl hc' hrs hk0, rfl, rfl⟩⟩
-
 end H5V.Props.C06
